@@ -169,32 +169,60 @@ theorem aget_aupdate (d e : List (String × α)) (k : String) (hn : (akeys e).No
       simp [this, aget]
     · simp [aget, h0, aget_aset_ne _ _ _ _ h0]
 
+theorem akeys_aerase_sublist (m : List (String × α)) (k : String) : (akeys (aerase m k)).Sublist (akeys m) := by
+  induction m with
+  | nil => simp [aerase, akeys]
+  | cons q t ih =>
+    obtain ⟨k0, v0⟩ := q
+    by_cases h0 : k0 = k
+    · simp [aerase, akeys, h0]
+    · simp only [aerase, h0, if_false, akeys, List.map_cons]
+      exact List.Sublist.cons₂ _ ih
+
+theorem nodup_akeys_aerase (m : List (String × α)) (k : String) (h : (akeys m).Nodup) : (akeys (aerase m k)).Nodup :=
+  List.Nodup.sublist (akeys_aerase_sublist m k) h
+
+theorem aget_aerase_ne (m : List (String × α)) (k k' : String) (h : k ≠ k') : aget (aerase m k) k' = aget m k' := by
+  induction m with
+  | nil => simp [aerase]
+  | cons q t ih =>
+    obtain ⟨k0, v0⟩ := q
+    by_cases h0 : k0 = k
+    · subst h0; simp [aerase, aget, h]
+    · by_cases h1 : k0 = k'
+      · subst h1; simp [aerase, aget, h0]
+      · simp [aerase, aget, h0, h1, ih]
+
+/-- with distinct keys, erasing a key removes its entry -/
+theorem aget_aerase_same (m : List (String × α)) (k : String) (h : (akeys m).Nodup) : aget (aerase m k) k = none := by
+  induction m with
+  | nil => simp [aerase]
+  | cons q t ih =>
+    obtain ⟨k0, v0⟩ := q
+    simp only [akeys, List.map_cons, List.nodup_cons] at h
+    by_cases h0 : k0 = k
+    · subst h0
+      simp only [aerase, if_true]
+      exact (aget_none_iff_not_mem_keys t k0).2 h.1
+    · simp only [aerase, h0, if_false, aget]
+      exact ih h.2
+
 end alist
 
 /-! ### `Res` combinators -/
 
 @[simp] theorem Res.ok_st (s : BState) : (Res.ok s).st = s := rfl
-@[simp] theorem Res.ok_docs (s : BState) : (Res.ok s).docs = [] := rfl
 @[simp] theorem Res.ok_calls (s : BState) : (Res.ok s).calls = [] := rfl
 @[simp] theorem Res.ok_err (s : BState) : (Res.ok s).err = none := rfl
-@[simp] theorem Res.ok_cev (s : BState) : (Res.ok s).cev = [] := rfl
 @[simp] theorem Res.fail_st (s : BState) (e : Err) : (Res.fail s e).st = s := rfl
-@[simp] theorem Res.fail_docs (s : BState) (e : Err) : (Res.fail s e).docs = [] := rfl
 @[simp] theorem Res.fail_err (s : BState) (e : Err) : (Res.fail s e).err = some e := rfl
-@[simp] theorem Res.fail_cev (s : BState) (e : Err) : (Res.fail s e).cev = [] := rfl
 @[simp] theorem Res.fail_calls (s : BState) (e : Err) : (Res.fail s e).calls = [] := rfl
-@[simp] theorem Res.pure_st (s : BState) (l : List CEv) : (Res.pure s l).st = s := rfl
-@[simp] theorem Res.pure_docs (s : BState) (l : List CEv) : (Res.pure s l).docs = [] := rfl
-@[simp] theorem Res.pure_err (s : BState) (l : List CEv) : (Res.pure s l).err = none := rfl
-@[simp] theorem Res.pure_cev (s : BState) (l : List CEv) : (Res.pure s l).cev = l := rfl
-@[simp] theorem Res.pure_calls (s : BState) (l : List CEv) : (Res.pure s l).calls = [] := rfl
 
 theorem Res.andThen_of_err (r : Res) (f : BState → Res) (e : Err) (h : r.err = some e) : r.andThen f = r := by
   unfold Res.andThen; rw [h]
 
 theorem Res.andThen_of_ok (r : Res) (f : BState → Res) (h : r.err = none) :
-    r.andThen f = { st := (f r.st).st, docs := r.docs ++ (f r.st).docs, calls := r.calls ++ (f r.st).calls,
-                    err := (f r.st).err, cev := r.cev ++ (f r.st).cev } := by
+    r.andThen f = { st := (f r.st).st, calls := r.calls ++ (f r.st).calls, err := (f r.st).err } := by
   unfold Res.andThen; rw [h]
 
 /-- A relation on states that is reflexive and transitive is preserved by sequencing. -/
@@ -205,17 +233,18 @@ theorem Res.andThen_rel (R : BState → BState → Prop) (_hrefl : ∀ s, R s s)
   | some e => rw [Res.andThen_of_err _ _ _ he]; exact h1
   | none => rw [Res.andThen_of_ok _ _ he]; exact htrans _ _ _ h1 (h2 _)
 
-/-- documents of a sequence: those of the first part, then (if it did not raise) those of the second -/
-theorem Res.andThen_docs (r : Res) (f : BState → Res) :
-    (r.andThen f).docs = r.docs ++ (match r.err with | some _ => [] | none => (f r.st).docs) := by
-  cases he : r.err with
-  | some e => rw [Res.andThen_of_err _ _ _ he]; simp
-  | none => rw [Res.andThen_of_ok _ _ he]
+/-- the state after a sequence that did not raise -/
+theorem Res.andThen_st_ok (r : Res) (f : BState → Res) (h : r.err = none) : (r.andThen f).st = (f r.st).st := by
+  rw [Res.andThen_of_ok _ _ h]
 
-theorem Res.andThen_cev (r : Res) (f : BState → Res) :
-    (r.andThen f).cev = r.cev ++ (match r.err with | some _ => [] | none => (f r.st).cev) := by
-  cases he : r.err with
-  | some e => rw [Res.andThen_of_err _ _ _ he]; simp
-  | none => rw [Res.andThen_of_ok _ _ he]
+theorem Res.andThen_err_ok (r : Res) (f : BState → Res) (h : r.err = none) : (r.andThen f).err = (f r.st).err := by
+  rw [Res.andThen_of_ok _ _ h]
+
+/-! ### documents emitted between two states -/
+
+theorem docsSince_self (s : BState) : docsSince s s = [] := by simp [docsSince]
+
+theorem docsSince_of_append (s s' : BState) (l : List Doc) (h : s'.out = s.out ++ l) : docsSince s s' = l := by
+  simp [docsSince, h]
 
 end BlueskyVerif.Bundler
